@@ -135,8 +135,11 @@ Example ex_shared_ok :
   Forall op_ok ex_shared /\ Forall shared_op ex_shared /\ Forall short_op ex_shared /\ well_addressed false 0 ex_shared /\
   updates_hit_written (init false) ex_shared.
 Proof.
-  unfold ex_shared. split; [|split; [|split; [|split]]]; simpl; repeat constructor; simpl; unfold string_width; try lia.
-  intros _. vm_compute. eauto.
+  split; [unfold ex_shared; repeat constructor; simpl; lia|].
+  split; [unfold ex_shared; repeat constructor|].
+  split; [unfold ex_shared; repeat constructor; simpl; unfold string_width; lia|].
+  split; [unfold ex_shared; simpl; repeat split; lia|].
+  vm_compute. repeat split; try exact I; intros H; [eauto|discriminate H].
 Qed.
 
 Example ex_shared_obs :
@@ -160,7 +163,7 @@ Example ex_alias_hyp :
   (* and the update is not a no-op: through the reference of a written entry and through a dense view it shows *)
   rd (fst (step (fst (step s1 (GetItem 0 1))) (Mut 0 2 (CI 9)))) 0 1 = Some [CI 1; CI 2; CI 9] /\
   rd (fst (step (fst (step s1 (GetItem 1 2))) (Mut 0 0 (CI 9)))) 1 2 = Some [CI 9; CI 0; CI 0].
-Proof. simpl. split; [repeat constructor; simpl; lia|]. vm_compute. repeat split; reflexivity. Qed.
+Proof. cbv zeta. split; [repeat constructor; simpl; lia|]. vm_compute. repeat split; reflexivity. Qed.
 
 Example ex_total_map_hyp : reachable (fst (run (init true) ex_hist)).
 Proof. exists true, ex_hist. split; [exact ex_hist_ok|reflexivity]. Qed.
@@ -178,7 +181,7 @@ Qed.
 (* dense: len = len(container), iteration yields exactly the rows the reads return (= as_array).
    sparse: `in`, len and iteration speak about the keys written since creation / the last clear (by design:
    "sparse attributes allow to iterate only over non-default elements"); the dense `in` is python's fallback to
-   iteration (membership among the *values*) and is not comparable. *)
+   iteration (membership among the values) and is not comparable. *)
 Theorem len_iter_contains : forall s a at_, reachable s -> lookup a (attrs s) = Some at_ ->
   match ast at_ with
   | Dense ne st rows =>
@@ -211,7 +214,7 @@ Proof.
   - pose proof Ok as [_ [_ B]]. rewrite St in B. destruct B as [B1 [B2 _]]. subst ne.
     unfold step. simpl. change (attrs (tick s)) with (attrs s). rewrite La. unfold len_attr, do_as_array.
     change (attrs (tick s)) with (attrs s). rewrite La, St. simpl. repeat split; auto.
-    intros k Hk. unfold rd. rewrite La. erewrite rd_dense; eauto.
+    intros k Hk. unfold rd. rewrite La. erewrite rd_dense; eauto. reflexivity.
 Qed.
 
 (* ------------------------------------------------------------------ create_attribute(size=...) *)
